@@ -65,6 +65,9 @@ pub enum R1Op {
     AllocAffine { mode: Mode, src: ESrc },
     /// new_witness::<Element> of arbitrary coordinates
     WitnessOffer { offer: Offer },
+    /// CurveVar::new_variable_omit_prime_order_check (witness mode) of arbitrary coordinates: a public
+    /// constructor that performs no decaf validity check (C14 circuits only)
+    AllocUnchecked { offer: Offer },
     ZeroVar,
     ConstantVar { src: ESrc },
     AllocFqVar { mode: Mode, v: Hex },
